@@ -167,9 +167,36 @@ def affine(rng, poly):
     return [(x * s + ox, y * s + oy) for x, y in poly], s
 
 
+def gentle_tilt(rng, poly):
+    """move 1-3 vertices along one axis by 0.05..0.9 x 1e-8 x max|coordinate| (kept >= 2e-6)"""
+    big = max(abs(c) for p in poly for c in p)
+    poly = list(poly)
+    for _ in range(rng.randint(1, 3)):
+        i = rng.randrange(len(poly))
+        d = max(rng.uniform(0.05, 0.9) * 1e-8 * big, 2e-6) * rng.choice([-1, 1])
+        x, y = poly[i]
+        poly[i] = (x, y + d) if rng.random() < 0.6 else (x + d, y)
+    return poly
+
+
 def gen_polygon(rng, nmax):
     fam = rng.choice(["lattice", "lattice", "lattice", "random", "star", "selfint", "rectilinear", "collinear",
-                      "convex", "degenerate", "comb", "short_edge"])
+                      "convex", "degenerate", "comb", "short_edge", "gentle"])
+    if fam == "gentle":
+        # projected-coordinate scale: large coordinates, lattice polygon whose horizontal / vertical edges are tilted by
+        # an increment far above atol (>= 1e-6) but tiny relative to the coordinate magnitude (a tolerance made
+        # relative to |coordinates| instead of absolute would flatten them)
+        n = rng.randint(3, min(nmax, 10))
+        K = rng.randint(2, 6)
+        s_ = rng.choice([0.05, 1.0, 25.0])
+        ox, oy = rng.choice([3e5, -2e6, 6.2e6, 1.5e6]), rng.choice([6.2e6, -4e6, 3e5, -3.9e6])
+        poly = [(ox + s_ * rng.randint(0, K), oy + s_ * rng.randint(0, K)) for _ in range(n)]
+        poly = gentle_tilt(rng, poly)
+        closed = False
+        if rng.random() < 0.3:
+            poly = poly + [poly[0]]
+            closed = True
+        return fam, poly, closed
     if fam == "lattice":
         n = rng.randint(3, nmax)
         K = rng.randint(2, 6)
@@ -705,18 +732,21 @@ def body(ctx):
         run_pip_history(steps, "history:" + fam)
 
     # ---------------------------------------------------------------- cells_inside_polygon
-    def place_polygon(geom, nmax_):
-        """a polygon of a random family brought over the grid of geometry (nrows, ncols, xll, yll, csz)"""
+    def place_polygon(geom, nmax_, on_centres=False):
+        """a polygon of a random family brought over the grid of geometry (nrows, ncols, xll, yll, csz);
+        on_centres: a lattice-rich family with its vertices on cell centres (edges level with rows of centres)"""
         nrows, ncols, xll, yll, csz = geom
         fam, poly, _closed = gen_polygon(rng, nmax_)
+        while on_centres and fam not in ("lattice", "rectilinear", "collinear", "comb"):
+            fam, poly, _closed = gen_polygon(rng, nmax_)
         xs = [p[0] for p in poly]
         ys = [p[1] for p in poly]
         w = max(max(xs) - min(xs), max(ys) - min(ys)) or 1.0
-        kind = rng.choice(["lattice_aligned", "lattice_aligned", "free"])
+        kind = "lattice_aligned" if on_centres else rng.choice(["lattice_aligned", "lattice_aligned", "free"])
         if kind == "lattice_aligned" and fam in ("lattice", "rectilinear", "collinear", "comb"):
             # vertices on cell corners or cell centres: many centres level with vertices / on edges
             unit = w / 6.0 if w > 0 else 1.0
-            half = rng.choice([0.0, 0.0, 0.5])
+            half = 0.5 if on_centres else rng.choice([0.0, 0.0, 0.5])
             poly = [(xll + csz * (round((x - min(xs)) / unit * ncols / 6.0) + half),
                      yll + csz * (round((y - min(ys)) / unit * nrows / 6.0) + half)) for x, y in poly]
         else:
@@ -791,8 +821,17 @@ def body(ctx):
         csz = rng.choice(CSZS)
         xll = rng.choice(XLLS) * csz
         yll = rng.choice(YLLS) * csz
+        projected = ig % 4 == 1
+        if projected:
+            # a grid in projected coordinates (|x|, |y| ~ 1e5..1e7, cells of 0.05 .. 250 units)
+            csz = rng.choice([0.05, 1.0, 25.0, 250.0])
+            xll, yll = rng.choice([3e5, -2e6, 1.5e6]), rng.choice([6.2e6, -4e6, -3.9e6])
         geom = (nrows, ncols, xll, yll, csz)
-        fam, kind, poly = place_polygon(geom, ctx.scale(10, 20))
+        tilted = projected and rng.random() < 0.7
+        fam, kind, poly = place_polygon(geom, ctx.scale(10, 20), on_centres=tilted)
+        if tilted:
+            poly = gentle_tilt(rng, poly)
+            kind += "+tilted"
         gr = Grid("g", ncols, nrows, csz, xll, yll)
         user_atol = rng.choice([None, None, 1e-8, 0.5, 10.0])     # not forwarded by the code
         query_cells(gr, geom, poly, fam, kind, user_atol, "cells_inside_polygon", {})
